@@ -796,6 +796,60 @@ async fn req_backpressure(c: &Value) -> Value {
   json!({"rows": [[80, dropped, accepted, next, completes]], "pendings": dropped})
 }
 
+/// Failing-input search for "a dropped recv() loses nothing", inside a REAL tokio task (where the cooperative budget
+/// applies): `n` messages are queued on a PULL/DEALER socket, then one task polls each recv() exactly once and drops
+/// the future when it is Pending (yielding before the next try).
+/// rows: [[81, sent, received, in order]]
+async fn poll_once_drain(c: &Value) -> Value {
+  let n = c["n"].as_u64().unwrap_or(200);
+  let tr = c["transport"].as_str().unwrap_or("inproc").to_string();
+  let ctx = Context::new().expect("ctx");
+  let ep = endpoint(&tr);
+  let pull = mk_socket(&ctx, "PULL", json!({"RCVHWM": 1000, "LINGER": 0})).await;
+  pull.bind(&ep).await.expect("bind");
+  let push = mk_socket(&ctx, "PUSH", json!({"SNDHWM": 1000, "LINGER": 0})).await;
+  push.connect(&ep).await.expect("connect");
+  sleep(Duration::from_millis(150)).await;
+  for i in 0..n {
+    let _ = timeout(Duration::from_secs(2), push.send(Msg::from_vec((i as u32).to_be_bytes().to_vec()))).await;
+  }
+  sleep(Duration::from_millis(300)).await; // everything is queued at the receiver
+  let p2 = pull.clone();
+  let h = tokio::spawn(async move {
+    let mut got: Vec<u32> = Vec::new();
+    let mut idle = 0u32;
+    while (got.len() as u64) < n && idle < 400 {
+      let fut = p2.recv();
+      tokio::pin!(fut);
+      match futures::poll!(fut.as_mut()) {
+        Poll::Ready(Ok(m)) => {
+          let d = m.data().unwrap_or(&[]);
+          if d.len() == 4 {
+            got.push(u32::from_be_bytes([d[0], d[1], d[2], d[3]]));
+          }
+          idle = 0;
+        }
+        Poll::Ready(Err(_)) => break,
+        Poll::Pending => {
+          // the future is dropped here, still pending
+          idle += 1;
+          tokio::task::yield_now().await;
+          if idle % 50 == 0 {
+            sleep(Duration::from_millis(5)).await;
+          }
+        }
+      }
+    }
+    got
+  });
+  let got = timeout(Duration::from_secs(15), h).await.ok().and_then(|r| r.ok()).unwrap_or_default();
+  let in_order = got.windows(2).all(|w| w[0] < w[1]);
+  let _ = timeout(Duration::from_millis(300), push.close()).await;
+  let _ = timeout(Duration::from_millis(300), pull.close()).await;
+  let missing: Vec<u64> = (0..n as u32).filter(|x| !got.contains(x)).take(6).map(|x| x as u64).collect();
+  json!({"rows": [[81, n, got.len() as u64, in_order as u64]], "pendings": 0, "missing": missing})
+}
+
 pub fn run_case(c: &Value) -> Value {
   let rt = tokio::runtime::Builder::new_current_thread().enable_all().build().unwrap();
   let c2 = c.clone();
@@ -804,6 +858,8 @@ pub fn run_case(c: &Value) -> Value {
       let fut = async {
         if c2["kind"].as_str() == Some("reqbp") {
           req_backpressure(&c2).await
+        } else if c2["kind"].as_str() == Some("pollonce") {
+          poll_once_drain(&c2).await
         } else {
           scenario(&c2).await
         }
